@@ -126,24 +126,49 @@ def r3(ctx):
 
 
 def r4(ctx):
+    # MaxDrawdownGenerator::update as a decision table over {a maximum is held?} x {|next| > |current|?}: the FINAL value of
+    # self.max per cell - whether the code takes the value out and always writes one back, or only writes when it changes
     b = ctx.fibody(name="update", self_adt=MAXG, trait="")
-    st = [(render(s[2]), s[3], b.guard(s[0])) for s in b.stores()]
-    ok = len(st) == 1 and st[0][0] == "self.max"
-    ctx.check("MaxDrawdownGenerator::update", ok, "one store of the maximum", got=[(x[0], render(x[1])) for x in st], key="store")
-    if ok:
-        val = st[0][1]
-        ph = [s for s in mir.subterms(val) if s[0] == "phi" and len(s) > 2 and s[2] is not None]
-        tab = {}
-        if ph:
-            for g, t, bi in b.local_cases(ph[0][2]):
-                tab[str(_atoms(g))] = render(t)
-        cur = "Option::take(self.max).as:Some.0"
-        want = {
-            str([sorted(["Option::take(self.max) is Some", "lt(Decimal::abs(%s.0.value), Decimal::abs(next_drawdown.value))" % cur])]): "MaxDrawdown::MaxDrawdown{0: next_drawdown}",
-            str([sorted(["Option::take(self.max) is Some", "le(Decimal::abs(next_drawdown.value), Decimal::abs(%s.0.value))" % cur])]): cur,
-            str([["Option::take(self.max) is None"]]): "MaxDrawdown::MaxDrawdown{0: next_drawdown}",
-        }
-        ctx.check("MaxDrawdownGenerator::update", tab == want, "the maximum is replaced exactly when |next| > |current| (or none is held)", got=tab, want=want, key="table")
+    stores = []
+    for bi, si, path, value, s_ in b.stores():
+        for g2, v2 in b.expand_term(b.guard(bi), value):
+            stores.append((render(common.norm_map(path)), render(common.norm_map(v2)), g2))
+    ctx.check("MaxDrawdownGenerator::update", bool(stores) and all(x[0] == "self.max" for x in stores), "only the maximum is stored",
+              got=sorted(set(x[0] for x in stores)), key="store")
+    cur = "self.max.as:Some.0"
+    nxt = "Option::Some{0: MaxDrawdown::MaxDrawdown{0: next_drawdown}}"
+
+    def val(cell):
+        def v(a):
+            t = common.norm_map(a[1])
+            if a[0] == "is" and render(t) == "self.max":
+                return ("Some" if cell["held"] else "None") in a[2]
+            c = atoms.atom_cmp((a[0], t) + tuple(a[2:]))
+            if c:
+                op, x, y = c[0], render(c[1]), render(c[2])
+                A, B = "Decimal::abs(%s.0.value)" % cur, "Decimal::abs(next_drawdown.value)"
+                if (x, y) == (A, B):      # |cur| op |next|
+                    return {"lt": cell["greater"], "le": None}.get(op) if op == "lt" else (None if op != "le" else None)
+                if (x, y) == (B, A):      # |next| op |cur|
+                    return {"le": not cell["greater"], "lt": None}.get(op) if op == "le" else None
+            return None
+        return v
+    tab, bad = {}, []
+    for held in (False, True):
+        for greater in ((False, True) if held else (False,)):
+            cell = {"held": held, "greater": greater}
+            try:
+                act = sorted(set(v for p_, v, g in stores if table.eval_guard(g, val(cell))))
+            except table.UnknownAtom as ex:
+                bad.append(str(ex)[:160])
+                continue
+            final = act if act else ["(unchanged)"]
+            tab["held=%s,greater=%s" % (held, greater)] = final
+    want = {"held=False,greater=False": [nxt], "held=True,greater=True": [nxt]}
+    ok = not bad and tab.get("held=False,greater=False") == [nxt] and tab.get("held=True,greater=True") == [nxt] and \
+        tab.get("held=True,greater=False") in (["(unchanged)"], ["Option::Some{0: %s}" % cur])
+    ctx.check("MaxDrawdownGenerator::update", ok, "the maximum is replaced exactly when |next| > |current| (or none is held); otherwise it "
+              "keeps its value", got={"table": tab, "unknown": bad}, key="table")
     m = ctx.fibody(name="update", self_adt=MEANG, trait="")
     calls = m.real_calls()
     inc = [(bi, si) for bi, si, path, value, s in m.stores() if render(path) == "self.count" and
